@@ -1415,7 +1415,9 @@ where
     let residual = host.send_event(&Event::Noop);
     let mut tmp = Obs::default();
     host.observe(residual, &mut tmp);
-    if tmp.events.is_empty() && tmp.effects.is_empty() {
+    {
+        // (whatever the no-op call found to apply or return was left behind by calls that had
+        // already returned, which is a violation by itself; a stale view shows here as well)
         if let (Some(before), Ok(after)) = (&view_right_after, host.view().map(|v| v.log)) {
             if *before != after {
                 findings.push((
